@@ -262,6 +262,13 @@ std::string run_case(Ctx &cx, const Prepared &p, const Case &c, std::string &det
         reader = c.reader; // a different (compatible or incompatible) field type does the loading
     size_t budget = 20 * (p.file.size() / (size_t)std::max(p.d.getbuf, 1) + 8);
     Outcome out = try_load(reader, *data, p.start, limit, p.d.getbuf, p.d.exc, thr, budget, p.d.seek != 0);
+    if (out.leak) {
+        // one-time allocations (lazily built tables, immortal caches) are not leaks: only
+        // residue that comes back when the same case is repeated counts
+        out = try_load(reader, *data, p.start, limit, p.d.getbuf, p.d.exc, thr, budget, p.d.seek != 0);
+        if (!out.leak)
+            cx.cnt.inc("observed.one_time_allocation_kept_by_the_library");
+    }
     ++cx.cases;
     cx.cnt.inc(std::string("cases.") + KIND_NAMES[c.kind]);
     if (c.kind != K_PAIR && c.reader >= 0)
